@@ -1182,7 +1182,7 @@ PROPS = {
     'C12': dict(run=run_multi, trace_module=None, parts=[
         dict(run=run_bitset, trace_module='Bitset_Trace', assumptions=['the verif-tagged VerifBitset hook forwards to the unexported bitset methods without adding behaviour'],
              rule='the search set of GSAP on its own: every transition of Bitset.tla (insert / delete / clear over positions around the 64-bit word boundaries, incl. re-use of the backing array after clear and downward growth) + seeded longer histories run on the real bitset through the VerifBitset hook; rules C12.bitset_members, C12.bitset_neighbours (set semantics)'),
-        fam_parser('recordings: GSAP only, histories without Parse(nil), blocks <= 64 bytes, buffers <= 130 bytes, half of them with BufferSize <= WindowSize, several fills / Shrinks / Resets; rules C12.match_longest (every emitted match equals the brute-force longest previous match in the buffered data, clipped at the block end) and C12.literal_justified', dict(walks=0, go=[('parser-gsap', 260), ('parser-sa-ntl', 60)]), design=('GSAP.tla', 'GSAP_m.cfg', 'GSAP_T.cfg', 1500))]),
+        fam_parser('recordings: GSAP only, histories without Parse(nil), blocks <= 64 bytes, buffers <= 130 bytes, half of them with BufferSize <= WindowSize, several fills / Shrinks / Resets; rules C12.match_longest (every emitted match equals the brute-force longest previous match in the buffered data, clipped at the block end) and C12.literal_justified; plus buffers of 3-32 KiB (binary texts on which the suffix sort takes its rank-sort fall-backs) judged by C12.no_longer_match: counter-witnesses (position, earlier source, longer length) proposed by the harness and validated by TLC', dict(walks=0, go=[('parser-gsap', 260), ('parser-sa-ntl', 60), ('parser-gsap-big', 9)]), design=('GSAP.tla', 'GSAP_m.cfg', 'GSAP_T.cfg', 1500))]),
     'C11': fam_parser('recordings: OSAP only, flags 0 mostly, blocks <= 64 bytes, buffers <= 130 bytes, several blocks per fill (edge reuse), blocks after Shrink; rule C11.cost_optimal: BlockCost = OptCost (forward DP over literal and nearest-source match edges written in TLA+)', dict(walks=0, go=[('parser-osap', 170), ('parser-sa-ntl', 30), ('parser-osap-long', 10)]), design=('OSAP.tla', 'OSAP_q.cfg', 'OSAP_T.cfg', 1200)),
     'C06': fam_dec('histories = random walks of Decoder.tla (API calls x writer fault schedule) + seeded Go-side histories with sizes around BufferSize-WindowSize / BufferSize, B < 2W, fault schedules and the retry protocol; C06 = no livelock / timeout event (no envelope action exists for them); liveness of the retry loops is model-checked (Terminates) on the design; non-trivial = distinct script with several flushes in one call, data larger than the free space, a refused or rejected block, or a writer fault'),
     'C07': dict(run=run_multi, trace_module=None, parts=[
